@@ -49,11 +49,14 @@ WRITE_SITES = {("mpf/platforms/fast/communicators/base.py", "FastSerialCommunica
 
 def write_site_check(C):
     """'queued commands keep their order': every byte written to a FAST port goes through the send queue and the writer
-    task.  Enumerates every call of write_to_port under mpf/platforms/fast; a new call site bypasses the queue."""
+    task.  Enumerates every call of write_to_port under mpf/platforms/fast; a new call site bypasses the queue - unless it
+    is a helper that is itself only ever CALLED (never passed around) from sites that are allowed (the writer task split
+    into helpers stays the writer task)."""
     import os
     rows = []
     root = os.path.join(extract.REPO, "mpf/platforms/fast")
-    found = []
+    calls = {}          # attribute name -> [(file, enclosing function, line)]
+    refs = {}           # attribute name -> number of non-call references (bound methods handed on)
     for dp, dn, fn in os.walk(root):
         for f in fn:
             if not f.endswith(".py"):
@@ -63,16 +66,34 @@ def write_site_check(C):
             stack = [(tree, "")]
             while stack:
                 node, qual = stack.pop()
+                called = set()
                 for ch in pyast.iter_child_nodes(node):
                     q = qual
                     if isinstance(ch, (pyast.ClassDef, pyast.FunctionDef, pyast.AsyncFunctionDef)):
                         q = (qual + "." if qual else "") + ch.name
-                    if isinstance(ch, pyast.Call) and isinstance(ch.func, pyast.Attribute) and ch.func.attr == "write_to_port":
-                        found.append((relf, qual, ch.lineno))
+                    if isinstance(ch, pyast.Call) and isinstance(ch.func, pyast.Attribute):
+                        calls.setdefault(ch.func.attr, []).append((relf, qual, ch.lineno))
+                        called.add(id(ch.func))
                     stack.append((ch, q))
-    for relf, qual, line in sorted(found):
-        ok = (relf, qual) in WRITE_SITES
-        rows.append(("write_to_port site %s:%s" % (relf, qual), ok, WRITE_SITES.get((relf, qual)) or
+                if isinstance(node, pyast.Attribute) and not isinstance(getattr(node, "ctx", None), pyast.Store):
+                    refs[node.attr] = refs.get(node.attr, 0) + 1
+
+    def allowed(relf, qual, depth=0):
+        if (relf, qual) in WRITE_SITES:
+            return WRITE_SITES[(relf, qual)]
+        name = qual.rsplit(".", 1)[-1]
+        sites = calls.get(name, [])
+        # every reference to the helper is a call (refs counts calls too), it is private, and every caller is allowed
+        if depth < 3 and name.startswith("_") and not name.startswith("__") and sites and \
+                refs.get(name, 0) == len(sites):
+            why = [allowed(f2, q2, depth + 1) for f2, q2, _ in sites]
+            if all(why):
+                return "helper called only from: " + "; ".join(sorted(set("%s (%s)" % (q2, w) for (_, q2, _), w in
+                                                                       zip(sites, why))))
+        return None
+    for relf, qual, line in sorted(calls.get("write_to_port", [])):
+        why = allowed(relf, qual)
+        rows.append(("write_to_port site %s:%s" % (relf, qual), bool(why), why or
                      "NEW site %s:%d writes to the port directly, past the send queue and its confirmation gate" % (relf, line)))
     return rows
 
